@@ -67,13 +67,13 @@ CHECKS.append(check(
 CHECKS.append(check(
     "C08", "csim", "exploration",
     "Same simulator. One run = one call history of 3-11 steps on a decoder object whose memory starts raw (zeroes, 0xFF or noise, never initialised): initialize (ok / sizeof too small or too big / wrong version), transform_io with valid arguments over a valid or damaged stream delivered in drawn pieces, transform_io with a NULL source or NULL destination, re-initialisation at any point. Checked call by call against an explicit life-cycle state machine (Raw, Ready, Suspended, Disabled, NoClaim) written from doc/note/statuses.md and initialization.md that predicts exactly the statuses the property names ('initialize not called', 'bad sizeof receiver', 'bad wuffs version', 'bad argument', 'disabled by previous error'), plus the buffer contract on every call (source bytes and meta untouched, destination bytes below the old wi untouched, indexes monotone and in range).",
-    CSIM_NOTE + " io_transformer decoders only (one coroutine each): the image decoders' 'bad call sequence' clause and 'interleaved coroutine calls' are not driven (C08 does not use the image path of the driver). The model makes no prediction after a failed initialize or after a decode has finished, because the property says nothing there.",
+    CSIM_NOTE + " io_transformer decoders only (one coroutine each): One run in three is instead a history of 3-10 calls (decode_image_config, decode_frame_config, decode_frame, restart_frame, tell_me_more; with the whole valid file available, or so little at first that the first coroutine suspends) on an IMAGE decoder, checked call by call against a second explicit model written from doc/std/image-decoders-call-sequence.md and the property text: decode_image_config after any completed decode call and restart_frame on a fresh decoder return 'bad call sequence'; decode_frame_config / decode_frame imply the calls they skip and never return it; tell_me_more without reported metadata is rejected with an error (which error is not demanded: decoders without metadata answer 'no more information' - a first, stricter version of the model was a false alarm); a different coroutine while one is suspended returns 'interleaved coroutine calls'; after any failed coroutine call everything returns 'disabled by previous error'. No prediction after a failing restart_frame, after 'end of data' or after another note. Own probe: relaxing the gif decoder's decode_image_config check is caught at run 11 (a 1x1 GIF, decode_image_config twice). The model makes no prediction after a failed initialize or after a decode has finished, because the property says nothing there.",
     "deterministic simulation: seeded call histories against an explicit life-cycle state machine + buffer-contract invariants",
     "DESIGN.md section 3 C, section 5 C08, Appendix C"))
 CHECKS.append(check(
     "C09", "csim", "exploration",
     "Same simulator. One run = one (stream, delivery schedule) executed on a base variant (ASan build with this CPU's SIMD paths, zeroed object memory, default initialize flags) and on 3-5 drawn variants of the cross product {ASan, -O2} x {SIMD paths, WUFFS_CONFIG__AVOID_CPU_ARCH} x object memory pre-fill {zeroes, 0xFF, noise} x initialize flags {default, ALREADY_ZEROED on zeroed memory, LEAVE_INTERNAL_BUFFERS_UNINITIALIZED} x {fresh object, memory that just held a decode of another stream} x destination-beyond-wi pre-fill; the portable twin of the base is always included. The schedule comes from a sub-tape seeded by one draw, so every variant sees the same decisions. Oracle: identical initialize status, final status, output bytes, consumed count and per-call record fingerprint.",
-    CSIM_NOTE + " The JPEG IDCT exception does not arise (no image decoders yet).",
+    CSIM_NOTE + " One run in three replays one image file and one delivery schedule across the same variant space for the twelve image decoders (image config, frame bounds, per-frame pixel hashes - only under the base pixel pre-fill -, final status, consumed count). The documented JPEG exception is honoured: a DAMAGED jpeg is not compared across CPU paths (counted as variant_skipped_jpeg_idct_exception); undamaged ones are.",
     "deterministic simulation: one delivery schedule replayed across memory / initialize-flag / CPU-path variants, differential",
     "DESIGN.md section 3 C, section 5 C09"))
 CHECKS.append(check(
